@@ -21,7 +21,8 @@ import terms
 from props_extra import c02_sig, c02_session
 
 PID = "C02"
-PROPS = ["PfModel.Props.C02", "PfModel.Props.C02Needed", "PfModel.Props.C02Entries", "PfModel.Props.C02Session", "PfModel.Props.C02View"]
+PROPS = ["PfModel.Props.C02", "PfModel.Props.C02Needed", "PfModel.Props.C02Entries", "PfModel.Props.C02Session", "PfModel.Props.C02View",
+         "PfModel.Props.C02Order", "PfModel.Props.C02WF"]
 DRIVER = "C02"
 RULE = ("random DAGs of 1-6 term-building functions (nullary, tuple outputs, shared parameters, defaults, bound values incl. over an "
         "upstream output, renames); for every output every listed argument combination (all when <= 16, else 16 sampled) plus "
